@@ -2,7 +2,8 @@ import LdkModel.Driver.Util
 import LdkModel.Model.Channel
 import LdkModel.Model.ChanPersist
 import LdkModel.Model.ChanReest
-import LdkModel.Generated.RecvAdmit
+import LdkModel.Model.ChanRaa
+import LdkModel.Model.RecvAdmit
 import LdkModel.Proofs.Channel.Guarded
 import LdkModel.Model.MonGate
 import LdkModel.Model.TxBuilder
@@ -106,11 +107,15 @@ def chan : Drv where
          | some a =>
            -- the stand-alone sender caps of Generated/RecvAdmit.lean (the ones `sender_limit_admitted_by_receiver_partial` is about)
            -- must bound the limit the whole translated get_available_balances reports on this state
-           let prm : RecvAdmit.Params := ⟨0, 0, c.cons.holder_selected_channel_reserve_satoshis, c.cons.counterparty_max_accepted_htlcs, c.cons.counterparty_max_htlc_value_in_flight_msat, c.cons.counterparty_selected_channel_reserve_satoshis⟩
+           let prm : RecvAdmit.Params := RecvAdmit.senderParams c.cons
            let outs := n.statsHtlcs.filter (fun h => h.outbound)
            let lim := a.next_outbound_htlc_limit_msat
+           let mn := a.next_outbound_htlc_minimum_msat
            if lim > RecvAdmit.senderInFlightCap prm ((outs.map (fun h => h.amount_msat)).sum) || (lim > 0 && !RecvAdmit.senderCountOk prm outs.length)
               || lim > RecvAdmit.senderReserveCap prm n.statsValueToSelf then (some s, "LIMIT-EXCEEDS-GENERATED-SENDER-CAP")
+           -- an amount the generated send_htlc comparisons admit at the reported minimum must pass the generated direct refusals of the
+           -- PEER's update_add_htlc (zero amount, its htlc_minimum_msat, the next HTLC id, a block-height CLTV): `real_send_check_admitted_by_receiver_partial`
+           else if sendAmountOk mn mn lim && !RecvAdmit.recvAddPrechecks (RecvAdmit.peerParams c.cons) mn n.nextOutId n.nextOutId 0 then (some s, "MINIMUM-REFUSED-BY-GENERATED-RECEIVER-PRECHECKS")
            else (some s, s!"{a.next_outbound_htlc_limit_msat} {a.next_outbound_htlc_minimum_msat}"))
     | ["release", x], some s => ret
       (match stepG s (.release (x == "a")) with | none => (some s, "disabled") | some s' => (some s', "ok"))
@@ -118,6 +123,9 @@ def chan : Drv where
       (match stepG s (.sendRaa (x == "a")) with | none => (some s, "disabled") | some s' => (some s', "ok"))
     | ["recv", y], some s => ret <|
       let q := if y == "a" then s.qba else s.qab
+      -- a revoke_and_ack: the rewrites GENERATED from FundedChannel::revoke_and_ack (Model/ChanRaa.lean) must give the node the protocol model's step gives
+      let n := if y == "a" then s.a else s.b
+      if (match q.head? with | some .raa => n.onRaaG != n.onRaa | _ => false) then (some s, "GENERATED-RAA-DIFFERS") else
       (match stepG s (.recv (y == "a")) with
        | none => (some s, "disabled")
        | some s' => (some s', s!"ok {(q.head?.map msgKind).getD "?"} {if s'.agreed && s'.feeAgreed then "agree" else "DISAGREE"}"))
